@@ -4,6 +4,7 @@ import (
 	"fmt"
 	"go/token"
 	"go/types"
+	"strings"
 
 	"golang.org/x/tools/go/ssa"
 )
@@ -501,6 +502,8 @@ func checkLogResults(p *Prog, r *Report, rule string) {
 					ok, detail = false, fmt.Sprintf("%d writer calls for one received result (or not that result)", len(writes))
 				} else if s.End != L {
 					ok, detail = false, "logger stops after a result"
+				} else if _, _, isF := fieldLoad(throughOnceAssigned(p, s.Resolve(writes[0].Call.Args[0]))); !isF {
+					ok, detail = false, "the record is written to "+s.Term(writes[0].Call.Args[0])+" instead of the logger's own output: an intermediate buffered writer keeps its first write error and silently drops every later record"
 				}
 			case closed || selectDoneChosen(s):
 				if len(writes) != 0 || !s.Returns() {
@@ -512,7 +515,27 @@ func checkLogResults(p *Prog, r *Report, rule string) {
 					ok, detail = false, "a path without a result writes a record or leaves the loop"
 				}
 			}
-			r.Check(ok, rule, key, p.Pos(fn.Pos()), "one writer call per received result; the logger returns only on cancel or closed input", detail, s.Describe(p)...)
+			r.Check(ok, rule, key, p.Pos(fn.Pos()), "one writer call per received result, to the logger's own output; the logger returns only on cancel or closed input", detail, s.Describe(p)...)
 		}
+	}
+	// result writers carry no state from one record to the next (an encoder or buffer kept in the writer
+	// remembers a transient write error and suppresses every following record)
+	for _, fn := range p.Implementers(modPath+"/command/log", "ResultWriter", "Write") {
+		if fn.Blocks == nil || fn.Synthetic != "" {
+			continue
+		}
+		var ws []string
+		if len(fn.Params) > 0 {
+			for g := range p.staticReach(fn) {
+				for _, b := range g.Blocks {
+					for _, in := range b.Instrs {
+						if st, ok := in.(*ssa.Store); ok && g == fn && derivesFromParam(st.Addr, fn.Params[0], 0) {
+							ws = append(ws, "store to "+(*Seg)(nil).term(st.Addr, 0)+" at "+p.Pos(st.Pos()))
+						}
+					}
+				}
+			}
+		}
+		r.Check(len(ws) == 0, rule, FuncName(fn)+"/stateless", p.Pos(fn.Pos()), "a result writer keeps no state between records (no store through its receiver)", strings.Join(ws, "; "))
 	}
 }
